@@ -30,6 +30,41 @@ type Exec struct {
 	Points []Point
 	keep   bool // keep labels
 	arena  []int8
+	cache  *Cache
+	cost   int
+	Pruned bool
+}
+
+// Cache is the visited-state store of one exploration (state caching on happens-before fingerprints).
+type Cache struct {
+	seen   map[vrt.H]int8
+	Hits   int64
+	States int64
+	max    int
+}
+
+func NewCache() *Cache { return &Cache{seen: map[vrt.H]int8{}, max: 30000000} }
+
+// Visit implements vrt.Pruner: a state reached again with at least the deviation cost of an earlier
+// visit has no unexplored futures and the execution is cut there. States on the replayed prefix are
+// never cut (they are the path to the new branch).
+func (e *Exec) Visit(key vrt.H) bool {
+	if e.cache == nil || len(e.Points) < len(e.Prefix) {
+		return true
+	}
+	c := int8(e.cost)
+	if old, ok := e.cache.seen[key]; ok && old <= c {
+		e.cache.Hits++
+		e.Pruned = true
+		return false
+	}
+	if len(e.cache.seen) < e.cache.max {
+		if _, ok := e.cache.seen[key]; !ok {
+			e.cache.States++
+		}
+		e.cache.seen[key] = c
+	}
+	return true
 }
 
 // Choose implements vrt.Chooser.
@@ -45,6 +80,7 @@ func (e *Exec) Choose(kind vrt.Kind, n int, costs []int8, label string) int {
 	p := Point{Kind: kind, N: n, Chosen: c}
 	if costs != nil {
 		p.CCost = costs[c]
+		e.cost += int(costs[c])
 		if i >= len(e.Prefix) {
 			a := len(e.arena)
 			e.arena = append(e.arena, costs...)
@@ -83,6 +119,7 @@ func (e *Exec) Cost() int {
 
 // Verdict of one execution, produced by the harness.
 type Verdict struct {
+	Pruned    bool   // the execution was cut by state caching: no verdict
 	Violation string // "" = property held; otherwise the oracle clause that failed (human readable)
 	Signature string // classification of the violation (harness parameters + failed clause), stable across schedules
 	Outcome   string // short label of what happened (distinct outcomes are counted)
@@ -102,6 +139,7 @@ type Options struct {
 	Shard, Of  int       // this process explores shard Shard of Of (Of<=1: everything)
 	SplitLevel int       // tree level (number of non-default choices) at which subtrees are distributed; default 2
 	KeepGoing  bool      // keep exploring after a violation
+	Cache      bool      // prune on visited happens-before fingerprints (vrt harnesses)
 	MaxViol    int       // stop after this many distinct violation signatures (default 8)
 	OnExec     func(e *Exec, v Verdict)
 }
@@ -125,6 +163,8 @@ type Stats struct {
 	EndStates   map[uint64]struct{}
 	EndStatesN  int64 // number of distinct end states (after merge/cap)
 	NonTrivial  int64
+	Pruned      int64 // executions cut by state caching
+	States      int64 // distinct (fingerprint, running thread) states visited
 	MaxPoints   int
 	Exhaustive  bool
 	CapHit      string
@@ -174,6 +214,8 @@ func (s *Stats) Merge(o *Stats) {
 	s.Executions += o.Executions
 	s.Points += o.Points
 	s.NonTrivial += o.NonTrivial
+	s.Pruned += o.Pruned
+	s.States += o.States
 	if o.MaxPoints > s.MaxPoints {
 		s.MaxPoints = o.MaxPoints
 	}
@@ -242,6 +284,10 @@ func Explore(run RunFunc, opt Options, st *Stats) {
 		opt.MaxViol = 8
 	}
 	st.Bound = opt.Bound
+	var cache *Cache
+	if opt.Cache {
+		cache = NewCache()
+	}
 	type node struct {
 		prefix []int
 		cost   int
@@ -263,14 +309,21 @@ func Explore(run RunFunc, opt Options, st *Stats) {
 			st.CapHit = fmt.Sprintf("execution cap %d", opt.MaxExecs)
 			break
 		}
-		e := &Exec{Prefix: nd.prefix}
+		e := &Exec{Prefix: nd.prefix, cache: cache}
 		v := run(e)
+		if e.Pruned || v.Pruned {
+			v.Pruned = true
+		}
 		if len(e.Points) < len(nd.prefix) {
 			panic(fmt.Sprintf("explore: replay diverged: execution ended after %d points, prefix has %d", len(e.Points), len(nd.prefix)))
 		}
 		// nodes above the split level are executed by every shard but counted by shard 0 only
 		count := nd.owned || opt.Shard == 0
-		if count {
+		if count && v.Pruned {
+			st.Pruned++
+			st.Points += int64(len(e.Points))
+		}
+		if count && !v.Pruned {
 			st.record(e, v)
 			if opt.OnExec != nil {
 				opt.OnExec(e, v)
@@ -314,6 +367,9 @@ func Explore(run RunFunc, opt Options, st *Stats) {
 				stack = append(stack, node{prefix: child, cost: c, level: nd.level + 1, owned: owned})
 			}
 		}
+	}
+	if cache != nil {
+		st.States = cache.States
 	}
 	st.EndStatesN = int64(len(st.EndStates))
 	st.WallSeconds = time.Since(start).Seconds()
